@@ -252,6 +252,44 @@ func (w *Workspace) UpdateFile(path, content string) {
 	if !sameStringSlice(oldIncludes, fileIndex.Includes) {
 		w.refreshIncludeTreeLocked()
 	}
+	w.rebuildFileOrderLocked()
+}
+
+// rebuildFileOrderLocked lists the member files in the order in which a fresh resolution of the
+// root journal would reach them (depth first, include directives in document order), so that
+// everything derived from the order (which of two conflicting declarations wins) does not depend
+// on the update history.
+func (w *Workspace) rebuildFileOrderLocked() {
+	if w.resolved == nil || w.resolved.Primary == nil {
+		return
+	}
+	order := make([]string, 0, len(w.resolved.Files))
+	seen := map[string]bool{w.rootJournalPath: true}
+	var visit func(path string, journal *ast.Journal)
+	visit = func(path string, journal *ast.Journal) {
+		for _, inc := range resolveIncludePathsInOrder(path, journal.Includes) {
+			if seen[inc] {
+				continue
+			}
+			included, ok := w.resolved.Files[inc]
+			if !ok || included == nil {
+				continue
+			}
+			seen[inc] = true
+			order = append(order, inc)
+			visit(inc, included)
+		}
+	}
+	visit(w.rootJournalPath, w.resolved.Primary)
+	for _, path := range w.resolved.FileOrder {
+		if !seen[path] {
+			if _, ok := w.resolved.Files[path]; ok {
+				seen[path] = true
+				order = append(order, path)
+			}
+		}
+	}
+	w.resolved.FileOrder = order
 }
 
 func (w *Workspace) buildIndexFromResolvedLocked() {
